@@ -253,3 +253,4 @@ PROPS['C12']['expect_probes'] = PROPS['C12']['expect_probes'] + ['callback_with_
 PROPS['C18']['expect_probes'] = PROPS['C18']['expect_probes'] + ['callback_entry_point_stored_in_sandbox_memory']
 PROPS['C10']['expect_probes'] = PROPS['C10']['expect_probes'] + ['grant_of_buffer_in_other_live_sandbox']
 PROPS['C13']['expect_probes'] = PROPS['C13']['expect_probes'] + ['running_callback_owner_moved_inside_its_body']
+PROPS['C14']['expect_probes'] = PROPS['C14']['expect_probes'] + ['F4_sbx_malloc_block_ends_at_last_byte']
